@@ -6,28 +6,42 @@ From Coq Require Import List ZArith Bool Arith.
 Import ListNotations.
 Require Import Base.C05_Np Model.C05_BC.
 
+(* A basis function is a FAMILY of scalar components: basis[i] is a tuple of fields (composite elements), each field
+   scalar- or vector-valued; `shape` lists the number of components of every field, the components are numbered
+   consecutively (field after field). *)
 Record fe (R : Type) := {
   nel : nat; nloc : nat; nq : nat;
+  shape : list nat;                  (* components per field: [1] scalar, [d] vector, [d; 1] vector x scalar, ... *)
   gdof : nat -> nat -> nat;          (* element, local index -> global dof (element_dofs[i][e]) *)
-  phi : nat -> nat -> nat -> R;      (* element, quadrature point, local index -> value (basis[i][0].value[e][q]) *)
+  phi : nat -> nat -> nat -> nat -> R;   (* element, quadrature point, local index, component -> value *)
   dxw : nat -> nat -> R }.           (* element, quadrature point -> dx[e][q] *)
-Arguments nel {R}. Arguments nloc {R}. Arguments nq {R}. Arguments gdof {R}. Arguments phi {R}. Arguments dxw {R}.
+Arguments nel {R}. Arguments nloc {R}. Arguments nq {R}. Arguments shape {R}. Arguments gdof {R}. Arguments phi {R}.
+Arguments dxw {R}.
+
+(* the tuple-of-fields value the forms receive, rebuilt from the flat component function *)
+Fixpoint unflatten_from {R} (off : nat) (sh : list nat) (f : nat -> R) : list (list R) :=
+  match sh with
+  | [] => []
+  | k :: rest => map f (seq off k) :: unflatten_from (off + k) rest f
+  end.
+Definition unflatten {R} (sh : list nat) (f : nat -> R) : list (list R) := unflatten_from 0 sh f.
+Definition ncomp (sh : list nat) : nat := fold_right Nat.add 0 sh.
 
 Section FE.
   Context {R : Type} (o : ring_ops R).
-  Variable mass_kernel : R -> R -> R.   (* inner(u, v) of the bilinear form: trial value, test value *)
-  Variable load_kernel : R -> R -> R.   (* inner(interp, v) of the linear form *)
+  Variable mass_kernel : list (list R) -> list (list R) -> R.   (* inner(u, v) of the bilinear form: trial, test (tuples of fields) *)
+  Variable load_kernel : list (list R) -> list (list R) -> R.   (* inner(interp, v) of the linear form *)
 
   Definition lsum {A} (f : A -> R) (l : list A) : R := fold_right (fun a acc => radd o (f a) acc) (r0 o) l.
 
   (* AbstractBasis.interpolate: value of the discrete function x at quadrature point q of element e *)
-  Definition interp (B : fe R) (x : list R) (e q : nat) : R :=
-    lsum (fun j => rmul o (vnth o x (gdof B e j)) (phi B e q j)) (seq 0 (nloc B)).
+  Definition interp (B : fe R) (x : list R) (e q c : nat) : R :=
+    lsum (fun j => rmul o (vnth o x (gdof B e j)) (phi B e q j c)) (seq 0 (nloc B)).
   (* data[j, i, e] = sum_q kernel(u_j, v_i) dx *)
   Definition Kloc (B : fe R) (e i j : nat) : R :=
-    lsum (fun q => rmul o (mass_kernel (phi B e q j) (phi B e q i)) (dxw B e q)) (seq 0 (nq B)).
+    lsum (fun q => rmul o (mass_kernel (unflatten (shape B) (phi B e q j)) (unflatten (shape B) (phi B e q i))) (dxw B e q)) (seq 0 (nq B)).
   Definition Lloc (B : fe R) (x : list R) (e i : nat) : R :=
-    lsum (fun q => rmul o (load_kernel (interp B x e q) (phi B e q i)) (dxw B e q)) (seq 0 (nq B)).
+    lsum (fun q => rmul o (load_kernel (unflatten (shape B) (interp B x e q)) (unflatten (shape B) (phi B e q i))) (dxw B e q)) (seq 0 (nq B)).
 
   (* COO triplets (row = test dof, col = trial dof, value), position (j*Nbfun + i)*nt + e as in _assemble *)
   Definition mass_coo (B : fe R) : list (nat * nat * R) :=
